@@ -63,6 +63,9 @@ def reference_3d(logm, k, logf, w, lo, hi, valid=None, conf=None):
     return np.asarray(a[rows, j], float), j, chi[rows, j], chi, near.any(axis=1)
 
 
+BIG_DONE = []
+
+
 def run(ctx):
     rng = ctx.rng
     for mod in (c05, c06, c09, c13, c14, c20):
@@ -80,7 +83,7 @@ def run(ctx):
     # (the passive contracts of C05, C06, C09, C14, C20 ride along as extra observation points; which of the package's functions
     #  the pipeline goes through is not a required route)
     ctx.require_events('text-row:objects-with-other-package-in-between', 'pipeline:run', 'recovered:rank1', 'text-row:checked', 'pipeline:band-added-after-listing')
-    ctx.require_regimes('mode:2d', 'mode:3d', 'style:v1', 'style:v2', 'exact-plant', 'noisy-plant', 'av0:at-bound', 'av0:interior', 'sources-per-file>1', 'plant:with-unused-or-limit-band', '3d:distance-range-not-in-kpc', 'package:model-without-flux-in-a-band', 'conf:flag-not-lower-case')
+    ctx.require_regimes('package:over-a-thousand-models', 'mode:2d', 'mode:3d', 'style:v1', 'style:v2', 'exact-plant', 'noisy-plant', 'av0:at-bound', 'av0:interior', 'sources-per-file>1', 'plant:with-unused-or-limit-band', '3d:distance-range-not-in-kpc', 'package:model-without-flux-in-a-band', 'conf:flag-not-lower-case')
     n_pipe = 10 if ctx.quick else 200
     ip = 0
     tries = 0
@@ -89,9 +92,13 @@ def run(ctx):
         mode = '2d' if tries % 2 == 0 else '3d'
         style = 'v1' if (tries // 2) % 2 == 0 else 'v2'
         n_m = int(rng.integers(2, 8))
+        # one cube package per run holds over a thousand models (real packages hold 10^4..10^5), with plants among the last ones
+        big = (not BIG_DONE) and ctx.shard == 0 and tries >= 6 and mode == '2d' and style == 'v2'
+        if big:
+            n_m = 1300
         n_ap = 1 if mode == '2d' else int(rng.integers(2, 5))
         n_w = int(rng.choice([15, 40]))
-        names = gen.model_names(rng, n_m)
+        names = gen.model_names(rng, n_m, 'lex' if big else None)
         ncol = int(rng.integers(1, 4))
         params = {'Q%d' % c: (np.arange(n_m) + 1.0) * 10.0 ** c for c in range(ncol)}
         truth = convcheck.make_truth(rng, n_m, n_ap, n_w, names=names, wav_range=(0.2, 800.0), params=params)
@@ -174,8 +181,10 @@ def run(ctx):
                 logm = fitcheck.grid_logm(conv, truth.apertures, theta, dist)
         # several planted sources per data file: the file is fitted by ONE fitter, source after source
         plants = []
-        for isrc in range(int(rng.integers(1, 5))):
+        for isrc in range(int(rng.integers(1, 5)) if not big else 3):
             m0 = int(rng.choice(others))
+            if big and isrc < 2:
+                m0 = [m_ for m_ in others if m_ >= n_m - 250][int(rng.integers(200))]
             a0 = float(rng.choice([lo, hi, rng.uniform(lo, hi), rng.uniform(lo, hi)]))
             if mode == '2d':
                 s0 = float(rng.uniform(-1.5, 1.5))
@@ -262,6 +271,9 @@ def run(ctx):
             ctx.rmdir(d)
             continue
         ctx.event('pipeline:run')
+        if big:
+            BIG_DONE.append(True)
+            ctx.regime('package:over-a-thousand-models')
         ctx.regime('mode:' + mode)
         ctx.regime('style:' + style)
         ip += 1
